@@ -160,6 +160,62 @@ Definition actuator_force_model
   let force := if forcelimited then sclamp force (vget forcerange 0) (vget forcerange 1) else force in
   (act_dot, force).
 
+(* passive._fluid_force, INERTIA-BOX branch (body_fluid_ellipsoid false), one task (world, body > 0):
+   the translator rejects the kernel (wp.pow).  [box_dims] and [box_fluid_local] are the local-frame
+   computation, [fluid_force_box_model] the whole task: the spatial vector stored into
+   fluid_applied_out = (force_global ; torque_global).  rot is ximat (row-major 3x3). *)
+Definition box_dims (mass : S) (inertia : list S) : list S :=
+  let scl := sdiv (sofZ 6) mass in
+  [ ssqrt (smul (smax MINVAL (ssub (sadd (vget inertia 1) (vget inertia 2)) (vget inertia 0))) scl);
+    ssqrt (smul (smax MINVAL (ssub (sadd (vget inertia 0) (vget inertia 2)) (vget inertia 1))) scl);
+    ssqrt (smul (smax MINVAL (ssub (sadd (vget inertia 0) (vget inertia 1)) (vget inertia 2))) scl) ].
+
+(* returns [torque0; torque1; torque2; force0; force1; force2] in the body's inertial frame *)
+Definition box_fluid_local (mass : S) (inertia l_ang l_lin : list S) (density viscosity : S) : list S :=
+  let has_viscosity := sgtb viscosity (sofZ 0) in
+  let has_density := sgtb density (sofZ 0) in
+  let box := box_dims mass inertia in
+  let box0 := vget box 0 in let box1 := vget box 1 in let box2 := vget box 2 in
+  let '(tq, fr) :=
+    if has_viscosity then
+      let diam := sdiv (sadd (sadd box0 box1) box2) (sofZ 3) in
+      (vscaler (vscaler (vscaler (vneg l_ang) (spow diam (sofZ 3))) spi) viscosity,
+       vscaler (vscaler (vscaler (vscale (sneg (sofZ 3)) l_lin) diam) spi) viscosity)
+    else ([sofZ 0; sofZ 0; sofZ 0], [sofZ 0; sofZ 0; sofZ 0]) in
+  let '(tq, fr) :=
+    if has_density then
+      let half := slit 1 2 in
+      let fr := vsub fr
+        [ smul (smul (smul (smul (smul half density) box1) box2) (sabs (vget l_lin 0))) (vget l_lin 0);
+          smul (smul (smul (smul (smul half density) box0) box2) (sabs (vget l_lin 1))) (vget l_lin 1);
+          smul (smul (smul (smul (smul half density) box0) box1) (sabs (vget l_lin 2))) (vget l_lin 2) ] in
+      let scl := sdiv density (sofZ 64) in
+      let p0 := spow box0 (sofZ 4) in let p1 := spow box1 (sofZ 4) in let p2 := spow box2 (sofZ 4) in
+      let tq := vsub tq
+        [ smul (smul (smul (smul box0 (sadd p1 p2)) (sabs (vget l_ang 0))) (vget l_ang 0)) scl;
+          smul (smul (smul (smul box1 (sadd p0 p2)) (sabs (vget l_ang 1))) (vget l_ang 1)) scl;
+          smul (smul (smul (smul box2 (sadd p0 p1)) (sabs (vget l_ang 2))) (vget l_ang 2)) scl ] in
+      (tq, fr)
+    else (tq, fr) in
+  tq ++ fr.
+
+Definition fluid_force_box_model (mass : S) (inertia rot xipos subtree_root cvel wind : list S)
+    (density viscosity : S) : list S :=
+  if sltb mass MINVAL then [sofZ 0; sofZ 0; sofZ 0; sofZ 0; sofZ 0; sofZ 0]
+  else
+    let rotT := mtranspose 3 3 rot in
+    let ang_global := [vget cvel 0; vget cvel 1; vget cvel 2] in
+    let lin_global := [vget cvel 3; vget cvel 4; vget cvel 5] in
+    let lin_com := vsub lin_global (vcross (vsub xipos subtree_root) ang_global) in
+    let l_ang := mat_vec 3 3 rotT ang_global in
+    let l_lin := mat_vec 3 3 rotT lin_com in
+    let l_lin := if sneb (vget wind 0) (sofZ 0) || sneb (vget wind 1) (sofZ 0) || sneb (vget wind 2) (sofZ 0)
+                 then vsub l_lin (mat_vec 3 3 rotT wind) else l_lin in
+    let l := box_fluid_local mass inertia l_ang l_lin density viscosity in
+    let tq := [vget l 0; vget l 1; vget l 2] in
+    let fr := [vget l 3; vget l 4; vget l 5] in
+    mat_vec 3 3 rot fr ++ mat_vec 3 3 rot tq.
+
 End Deriv.
 
 (* MuJoCo's lower-triangular CSR layout of the inertia matrix (mjModel.M_rownnz / M_rowadr /
